@@ -136,6 +136,15 @@ theorem processSlot_rel {P} (hP : PreOrd P) (tbl : ClassTable)
     split at h
     · cases h
     · cases h; exact hP.refl _
+  | oneUnless k o =>
+    simp only [processSlot] at h
+    split at h
+    · cases h; exact hP.refl _
+    · split at h
+      · cases h
+      · split at h
+        · cases h
+        · rename_i a st1 h1; cases h; exact hf _ _ _ _ h1
   | sub k by_ mode =>
     simp only [processSlot] at h
     split at h
